@@ -791,6 +791,68 @@ struct Runner {
     last_probe: Value,
 }
 
+// ------------------------------------------------------------------------------------------------
+// real-time watchdog for the paused-clock settle
+struct Watch {
+    deadline: Option<std::time::Instant>,
+    waker: Option<Waker>,
+    fired: bool,
+}
+static WATCH: Mutex<Watch> = Mutex::new(Watch { deadline: None, waker: None, fired: false });
+static WATCH_LIMIT_MS: std::sync::atomic::AtomicU64 = std::sync::atomic::AtomicU64::new(8000);
+static STALLS: std::sync::atomic::AtomicUsize = std::sync::atomic::AtomicUsize::new(0);
+
+fn watchdog_thread() {
+    std::thread::spawn(|| loop {
+        std::thread::sleep(Duration::from_millis(25));
+        let mut g = WATCH.lock().unwrap();
+        if let Some(d) = g.deadline {
+            if std::time::Instant::now() > d && !g.fired {
+                g.fired = true;
+                if let Some(w) = g.waker.take() {
+                    w.wake();
+                }
+            }
+        }
+    });
+}
+
+/// `tokio::time::sleep` on the paused clock, which returns only once every other task is idle; returns
+/// true if that did not happen within the real-time limit (some task never goes idle).
+async fn guarded_sleep(d: Duration) -> bool {
+    use std::sync::atomic::Ordering;
+    {
+        let mut g = WATCH.lock().unwrap();
+        g.fired = false;
+        g.waker = None;
+        g.deadline = Some(std::time::Instant::now() + Duration::from_millis(WATCH_LIMIT_MS.load(Ordering::SeqCst)));
+    }
+    let sleep = tokio::time::sleep(d);
+    tokio::pin!(sleep);
+    let stalled = std::future::poll_fn(|cx| {
+        if sleep.as_mut().poll(cx).is_ready() {
+            return Poll::Ready(false);
+        }
+        let mut g = WATCH.lock().unwrap();
+        if g.fired {
+            return Poll::Ready(true);
+        }
+        g.waker = Some(cx.waker().clone());
+        Poll::Pending
+    })
+    .await;
+    {
+        let mut g = WATCH.lock().unwrap();
+        g.deadline = None;
+        g.waker = None;
+    }
+    if stalled {
+        STALLS.fetch_add(1, Ordering::SeqCst);
+        WATCH_LIMIT_MS.store(1500, Ordering::SeqCst); // the first stall is given a long time, later ones less
+    }
+    stalled
+}
+
 fn noop_cx_poll<F: Future + ?Sized>(f: Pin<&mut F>) -> Poll<F::Output> {
     let w = futures_util::task::noop_waker();
     let mut cx = Context::from_waker(&w);
@@ -1174,6 +1236,41 @@ impl Runner {
                 let _ = c.cmd.as_ref().unwrap().send(Cmd::Write(b"\x16\x03\x00garbage\x00\xff\r\n\r\nnot http at all\r\n\r\n".to_vec()));
                 true
             }
+            "Prefix" => {
+                // FAULT: a strict, non-empty prefix (k bytes, 1..=23) of the HTTP/2 preface, and nothing after it
+                if i == 0 || i >= self.clis.len() || self.clis[i].state != "open" || self.clis[i].is_h2() {
+                    return false;
+                }
+                let c = &mut self.clis[i];
+                if c.sent.iter().any(|x| *x > 0) || c.junk || c.half {
+                    return false;
+                }
+                let n = s.k.clamp(1, 23);
+                c.coop = false;
+                c.junk = true;
+                let _ = c.cmd.as_ref().unwrap().send(Cmd::Write(b"PRI * HTTP/2.0\r\n\r\nSM\r\n\r\n"[..n].to_vec()));
+                true
+            }
+            "ResetConnect" => {
+                // FAULT (TCP only): the client completes the handshake and resets (SO_LINGER=0, close) while the
+                // connection still sits in the listen backlog: nothing is awaited, so the server cannot have run
+                match &self.dial {
+                    Dial::Tcp(a) => match std::net::TcpStream::connect(a) {
+                        Ok(st) => {
+                            let _ = st.set_nonblocking(true);
+                            if let Ok(t) = tokio::net::TcpStream::from_std(st) {
+                                let _ = t.set_linger(Some(Duration::from_secs(0)));
+                                drop(t);
+                            }
+                            self.pending_q.push_back((false, 0));
+                            self.resets += 1;
+                            true
+                        }
+                        Err(_) => false,
+                    },
+                    _ => false,
+                }
+            }
             "Trunc" => {
                 if i == 0 || i >= self.clis.len() || self.clis[i].state != "open" || self.clis[i].is_h2() {
                     return false;
@@ -1306,6 +1403,9 @@ impl Runner {
         let mut connected = false;
         for round in 0..12 {
             self.settle().await;
+            if self.stalled {
+                break;
+            }
             let st = self.probes[n].state.clone();
             if st == "refused" {
                 break;
@@ -1422,6 +1522,9 @@ impl Runner {
     /// every gate opens; every chunk is released. Nothing new is started.
     async fn quiesce(&mut self) {
         for _round in 0..8 {
+            if self.stalled {
+                break;
+            }
             let mut acted = false;
             for i in 1..self.clis.len() {
                 if self.clis[i].state == "open" && self.clis[i].coop {
@@ -1472,7 +1575,17 @@ impl Runner {
     }
 
     async fn finish(&mut self) {
+        if self.stalled {
+            let r = self.observe("stalled");
+            self.recs.push(r);
+            return;
+        }
         self.quiesce().await;
+        if self.stalled {
+            let r = self.observe("stalled");
+            self.recs.push(r);
+            return;
+        }
         let r = self.observe("quiesce");
         self.recs.push(r);
         for i in 1..self.clis.len() {
@@ -1480,11 +1593,14 @@ impl Runner {
         }
         self.settle().await;
         self.settle().await;
-        let r = self.observe("final");
+        let r = self.observe(if self.stalled { "stalled" } else { "final" });
         self.recs.push(r);
     }
 
     async fn step(&mut self, s: &Step) {
+        if self.stalled {
+            return;
+        }
         if s.a == "Probe" && !self.batch.is_empty() {
             // probes only at settled points
             self.settle().await;
@@ -1545,6 +1661,10 @@ impl Runner {
                     v.push((mk("Send", i, k, PARTS[sent]), 14));
                 }
             }
+            if c09 && self.cfg.proto == "auto" && !c.is_h2() && c.coop && !c.sent.iter().any(|x| *x > 0) {
+                let n = [1usize, 5, 14, 18, 23][rng.gen_range(0..5)];
+                v.push((mk("Prefix", i, n, ""), 4));
+            }
             let faults = c09 || rng.gen_bool(0.25);
             if faults {
                 let fw = if c09 { 2 } else { 1 };
@@ -1586,6 +1706,9 @@ impl Runner {
                 v.push((s, 1));
             }
         }
+        if c09 && matches!(self.dial, Dial::Tcp(_)) && self.resets < 4 && self.srv_state == "running" {
+            v.push((mk("ResetConnect", 0, 0, ""), 8));
+        }
         let any_pending = self.clis.iter().any(|c| c.state == "pending");
         if !any_pending && !make_pending && self.probes.len() < if c09 { 12 } else { 2 } {
             v.push((mk("Probe", 0, 0, ""), if c09 { 2 } else { 1 }));
@@ -1595,7 +1718,7 @@ impl Runner {
 }
 
 fn is_fault(a: &str, s: &Step) -> bool {
-    matches!(a, "CancelConnect" | "Disconnect" | "Trunc" | "Garbage") || (a == "Gate" && s.ok == Some(false)) || (a == "Connect" && s.mode == "raw")
+    matches!(a, "CancelConnect" | "Disconnect" | "Trunc" | "Garbage" | "Prefix" | "ResetConnect") || (a == "Gate" && s.ok == Some(false)) || (a == "Connect" && s.mode == "raw")
 }
 
 async fn run_schedule(cfg: Cfg, tls: Option<&TlsMat>, paused: bool, scratch: &str, walk: Option<(&str, u64, usize)>) -> Vec<Value> {
@@ -1616,15 +1739,29 @@ async fn run_schedule(cfg: Cfg, tls: Option<&TlsMat>, paused: bool, scratch: &st
             let mut rng = StdRng::seed_from_u64(seed);
             let c09 = prof == "c09";
             // the signal position is uniform over the walk (C07: always; C09: sometimes, late)
-            let sig_at: usize = if !c09 { rng.gen_range(0..len) } else if rng.gen_bool(0.25) { rng.gen_range(len / 2..len) } else { usize::MAX };
+            let sig_at: usize = if cfg.sig_on_make != 0 { usize::MAX } else if !c09 { rng.gen_range(0..len) } else if rng.gen_bool(0.25) { rng.gen_range(len / 2..len) } else { usize::MAX };
             let lost_at: usize = if c09 && rng.gen_bool(0.06) { rng.gen_range(len / 2..len) } else { usize::MAX };
             let mut n = 0;
             let mut force_probe = false;
+            let mut forced: VecDeque<Step> = VecDeque::new();
+            if cfg.sig_on_make != 0 {
+                // "serve k connections then stop": a burst of connects is queued before the server runs
+                let burst = cfg.nconn.min(3).max(2);
+                for i in 1..=burst {
+                    forced.push_back(Step { a: "Connect".into(), c: i, ns: i < burst, ..Default::default() });
+                }
+            }
             while n < len {
+                if r.stalled {
+                    break;
+                }
                 let any_pending = r.clis.iter().any(|c| c.state == "pending");
                 let make_pending = r.sh.lock().unwrap().make_gated && { let g = r.sh.lock().unwrap(); (1..=g.makes).any(|a| !g.make_dec.contains_key(&a)) };
                 let fired = r.sh.lock().unwrap().sig_fired;
-                let mut s = if force_probe && r.batch.is_empty() && !make_pending && !any_pending {
+                let was_forced = !forced.is_empty();
+                let mut s = if let Some(f) = forced.pop_front() {
+                    f
+                } else if force_probe && r.batch.is_empty() && !make_pending && !any_pending {
                     force_probe = false;
                     Step { a: "Probe".into(), ..Default::default() }
                 } else if n >= sig_at && !fired {
@@ -1648,13 +1785,20 @@ async fn run_schedule(cfg: Cfg, tls: Option<&TlsMat>, paused: bool, scratch: &st
                     }
                     chosen
                 };
-                if s.a != "Probe" {
+                if s.a != "Probe" && !was_forced {
                     // a cancelled connect needs the connect queued and not yet accepted
                     s.ns = rng.gen_bool(if s.a == "Connect" && c09 { 0.5 } else { 0.2 });
                 }
-                if c09 && is_fault(&s.a, &s) {
+                if s.a == "Prefix" {
+                    // the prefix is followed by the client going away (drop, or half-close)
+                    s.ns = rng.gen_bool(0.5);
+                    forced.push_back(Step { a: if rng.gen_bool(0.5) { "Disconnect".into() } else { "Trunc".into() }, c: s.c, ..Default::default() });
+                }
+                if c09 && is_fault(&s.a, &s) && s.a != "Prefix" {
                     force_probe = true;
-                    s.ns = false;
+                    if s.a != "ResetConnect" || rng.gen_bool(0.7) {
+                        s.ns = false;
+                    }
                 }
                 r.step(&s).await;
                 n += 1;
@@ -1716,11 +1860,17 @@ fn main() {
     let tls = arg(&args, "--certdir").map(|d| load_tls(&d));
     // silence panics of the code under test inside spawned tasks (they are recorded as data)
     std::panic::set_hook(Box::new(|_| {}));
+    watchdog_thread();
+    let mut truncated = false;
     let mut tr = TraceOut::create(&out);
     let mut nsched = 0usize;
     if let Some(inp) = arg(&args, "--in") {
         let text = std::fs::read_to_string(&inp).expect("read --in");
         for line in text.lines().filter(|l| !l.trim().is_empty()) {
+            if STALLS.load(std::sync::atomic::Ordering::SeqCst) >= 4 {
+                truncated = true; // enough stalled schedules recorded; each one costs real time
+                break;
+            }
             let cfg: Cfg = serde_json::from_str(line).unwrap_or_else(|e| panic!("bad schedule {line}: {e}"));
             for r in run_one(cfg, tls.as_ref(), &scratch, None) {
                 tr.emit(&r);
@@ -1741,13 +1891,19 @@ fn main() {
         for n in 0..num {
             let proto = protos[n % protos.len()].clone();
             let s: u64 = rng.gen();
+            if STALLS.load(std::sync::atomic::Ordering::SeqCst) >= 4 {
+                truncated = true;
+                break;
+            }
             let make_gated = acc == "duplex" && rng.gen_bool(0.15);
+            let sig_on_make = if prof == "c07" && rng.gen_bool(0.15) { rng.gen_range(1..=2) } else { 0 };
             let cfg = Cfg {
                 id: format!("w-{prof}-{acc}{}-{proto}-{seed}-{n}", if use_tls { "-tls" } else { "" }),
                 proto,
                 tls: use_tls,
                 acc: acc.clone(),
                 make_gated,
+                sig_on_make,
                 nconn,
                 nreq: 2,
                 steps: vec![],
@@ -1762,5 +1918,5 @@ fn main() {
     }
     let lines = tr.lines;
     tr.finish();
-    println!("{}", json!({"schedules": nsched, "records": lines}));
+    println!("{}", json!({"schedules": nsched, "records": lines, "stalls": STALLS.load(std::sync::atomic::Ordering::SeqCst), "truncated": truncated}));
 }
